@@ -241,3 +241,7 @@ def run(ck, prog, ctx):
     ck.rule("ERR", "every call of a crate function returning Result<_, HpoError> propagates the error (`?` / return / match), panics on it (unwrap / expect), or is a listed documented exception; none replaces it by a default")
     from engines import check_error_discipline
     check_error_discipline(ck, "ERR", prog, r"^src/term/information_content\.rs$|^src/ontology/builder\.rs$", allowed=[(r"^Ontology::hpo$", r"try_new$", "documented: Ontology::hpo answers None for an id that is not in the ontology")], floor=3)
+    # the gene / OMIM / ORPHA variants of one operation: none does something its siblings do not
+    ck.rule("KSIB", "in a group of >= 3 kind variants of one operation, no member alone has an extra selecting / truncating / error-swallowing / text-changing step or calls a crate function no sibling calls")
+    from engines import check_kind_siblings
+    check_kind_siblings(ck, "KSIB", prog, r"^src/term/information_content\.rs$|^src/ontology/builder\.rs$", floor=1)
